@@ -28,7 +28,6 @@ MUTANTS = [
     M('C03', 'directive-arg-check-dropped', 'cfgparser.py',
       '        if not arg:\n            self.error("missing argument to %%%s directive" % name)\n',
       ''),
-    M('C03', 'value-keeps-leading-ws', 'cfgparser.py', r'(?P<value>[^\s].*)?$"', r'(?P<value>.*)?$"'),
     M('C03', 'blank-not-skipped', 'cfgparser.py', 'if line[:1] in ("", "#"):', 'if line[:1] == "#":'),
     M('C03', 'unclosed-not-checked', 'cfgparser.py',
       '        if self.stack:\n            self.error("unclosed sections not allowed")\n', ''),
@@ -88,7 +87,7 @@ MUTANTS += [
     M('C06', 'nested-parser-gets-schema-matcher', 'loader.py', "            self._parse_resource(section, r, defines)", "            self._parse_resource(getattr(section, '_vf_never', section) if section.info is section.type else self.__dict__.get('_vf_sm', section), r, defines)"),
     M('C06', 'unclosed-check-only-at-top', 'cfgparser.py', "        if self.stack:\n            self.error(\"unclosed sections not allowed\")", "        if self.stack and self.defines is not None and not getattr(self.context, '_vf_depth', 0):\n            self.error(\"unclosed sections not allowed\")"),
     # ---------------- C07
-    M('C07', 'getinfo-keyerror', 'cmdline.py', "            bk = self.basic_key(s, pos)", "            bk = self._basic_key(s)"),
+    M('C07', 'optionbag-keytype-unwrapped', 'cmdline.py', "                try:\n                    name = sectiontype.keytype(optpath[0])\n                except ValueError as e:", "                try:\n                    name = sectiontype.keytype(optpath[0])\n                except KeyError as e:"),
     M('C07', 'start-section-catch-narrowed', 'cfgparser.py', "        except ZConfig.ConfigurationError as e:\n            self.error(e.message)\n\n        if isempty:", "        except ZConfig.ConfigurationSyntaxError as e:\n            self.error(e.message)\n\n        if isempty:"),
     M('C07', 'keytype-wrapper-dropped', 'matcher.py', "        try:\n            realkey = self.type.keytype(key)\n        except ValueError as e:\n            raise ZConfig.DataConversionError(e, key, position)\n        arbkey_info = None", "        realkey = self.type.keytype(key)\n        arbkey_info = None"),
     M('C07', 'empty-optpath-allowed', 'cmdline.py', "        if \"\" in optpath:", "        if \"\" in optpath[1:]:"),
@@ -100,4 +99,36 @@ MUTANTS += [
     M('C08', 'end-section-clobbers-lineno', 'cfgparser.py', "            if e.lineno < 0:\n                e.lineno = self.lineno\n            if not e.url:\n                e.url = self.url\n            raise\n        except ZConfig.ConfigurationError as e:\n            self.error(e.message)\n", "            e.lineno = self.lineno\n            if not e.url:\n                e.url = self.url\n            raise\n        except ZConfig.ConfigurationError as e:\n            self.error(e.message)\n"),
     M('C08', 'included-url-is-includer', 'loader.py', "        parser = ZConfig.cfgparser.ZConfigParser(resource, self, defines)", "        parser = ZConfig.cfgparser.ZConfigParser(resource, self, defines)\n        if defines is not None and getattr(matcher, 'name', None):\n            parser.url = self.schema.url or parser.url"),
     M('C08', 'conversion-value-lost', 'info.py', "            raise ZConfig.DataConversionError(e, self.value, self.position)", "            raise ZConfig.DataConversionError(e, str(e), self.position)"),
+]
+
+MUTANTS += [
+    # ---------------- C16
+    M('C16', 'call-before-missing-check', 'loader.py', "        if L:\n            raise ZConfig.ConfigurationError(\n                \"undefined handlers: \" + \", \".join(L))\n        for handler, value in self._handlers:\n            f = d[handler]\n            if f is not None:\n                f(value)", "        for handler, value in self._handlers:\n            if handler in d and d[handler] is not None:\n                d[handler](value)\n        if L:\n            raise ZConfig.ConfigurationError(\n                \"undefined handlers: \" + \", \".join(L))"),
+    M('C16', 'handlers-reversed', 'loader.py', "        for handler, value in self._handlers:\n            f = d[handler]", "        for handler, value in reversed(self._handlers):\n            f = d[handler]"),
+    M('C16', 'duplicate-check-dropped', 'loader.py', "            if n in d:\n                raise ZConfig.ConfigurationError(\n                    \"handler name not unique when converted to a basic-key: \"\n                    + repr(name))", "            pass"),
+    M('C16', 'len-off-by-one', 'loader.py', "        return len(self._handlers)", "        return max(0, len(self._handlers) - 1) if len(self._handlers) > 3 else len(self._handlers)"),
+    M('C16', 'schema-handler-first', 'matcher.py', "            self.handlers.append((self.type.handler, v))", "            self.handlers.insert(0, (self.type.handler, v))"),
+    M('C16', 'handler-gets-unconverted', 'matcher.py', "            values[attr] = v\n            if ci.handler is not None:\n                self.handlers.append((ci.handler, v))", "            if ci.handler is not None:\n                self.handlers.append((ci.handler, values[attr]))\n            values[attr] = v"),
+    M('C16', 'none-not-skipped', 'loader.py', "            if f is not None:\n                f(value)", "            if f is not None or value == 'q':\n                (f or (lambda v: None))(value)\n            if f is None and isinstance(value, list) and len(value) == 2:\n                raise ZConfig.ConfigurationError('x')"),
+    # ---------------- C14
+    M('C14', 'section-match-case-sensitive', 'cmdline.py', "            if name and self._normalize_case(s) == name:", "            if name and s == name:"),
+    M('C14', 'file-value-not-suppressed', 'cmdline.py', "        if realkey in self.optionbag:\n            return", "        if realkey in self.optionbag and False:\n            return"),
+    M('C14', 'override-values-reversed', 'cmdline.py', "            for val, pos in self.optionbag.get_key(key):", "            for val, pos in reversed(self.optionbag.get_key(key)):"),
+    M('C14', 'leftover-sections-ignored', 'cmdline.py', "        if self.sectitems or self.keypairs:", "        if self.keypairs:"),
+    M('C14', 'override-values-expanded', 'cmdline.py', "        opt, val = spec.split(\"=\", 1)", "        opt, val = spec.split(\"=\", 1)\n        val = val.replace('$$', '$')"),
+    M('C14', 'bag-not-consumed-by-first', 'cmdline.py', "        if L:\n            self.sectitems[:] = R\n", "        if L:\n"),
+    M('C14', 'empty-component-allowed-at-end', 'cmdline.py', "        if \"\" in optpath:", "        if \"\" in optpath[:-1]:"),
+    # ---------------- C15
+    M('C15', 'closer-case-sensitive', 'cfgparser.py', "        type_ = self._normalize_case(rest.rstrip())", "        type_ = rest.rstrip()"),
+    M('C15', 'rstrip-only', 'cfgparser.py', "            return False, line.strip()", "            return False, line.rstrip()"),
+    M('C15', 'define-name-case-sensitive', 'cfgparser.py', "defname = self._normalize_case(parts[0])", "defname = parts[0]"),
+    M('C15', 'empty-form-skips-finish', 'cfgparser.py', "        if isempty:\n            self._end_section(section, type_, name, newsect)\n            return section", "        if isempty:\n            if name:\n                self._end_section(section, type_, name, newsect)\n            return section"),
+    M('C15', 'nbsp-not-whitespace', 'cfgparser.py', "            return False, line.strip()", "            return False, line.strip(' \\t\\r\\n\\x0b\\x0c')"),
+    # ---------------- C17
+    M('C17', 'sorted-dropped', 'schemaless.py', "        lst = sorted(self.items())", "        lst = list(self.items())[::-1] if len(self) > 1 else sorted(self.items())"),
+    M('C17', 'name-omitted', 'schemaless.py', "            if self.name:\n                start = f'{pre}<{self.type} {self.name}'", "            if self.name and self.name != self.type:\n                start = f'{pre}<{self.type} {self.name}'"),
+    M('C17', 'values-prepended', 'schemaless.py', "            self[key].append(value)", "            self[key].insert(0, value)"),
+    M('C17', 'import-dups-allowed', 'schemaless.py', "        if pkgname not in self.top.imports:\n            self.top.imports += (pkgname, )", "        self.top.imports += (pkgname, )"),
+    M('C17', 'dollar-not-escaped-in-import', 'schemaless.py', "result.append('%import ' + pkgname.replace('$', '$$'))", "result.append('%import ' + pkgname)"),
+    M('C17', 'define-silently-dropped', 'schemaless.py', "        raise NotImplementedError('defines are not supported')", "        pass"),
 ]
